@@ -112,8 +112,10 @@ void bvp_fmt_nodes(BufrDescriptor **pb, int count)
    for (i = 0; i < count; i++)
       {
       BufrDescriptor *b = pb[i];
-      fprintf(bvp_out, "%s%d/%d/%d/%d/%d/%d/%d/%d", i ? " " : "", b->descriptor, (int)b->flags, (int)b->encoding.type,
+      fprintf(bvp_out, "%s%d/%d/%d/%d/%d/%d/%d/%d/", i ? " " : "", b->descriptor, (int)b->flags, (int)b->encoding.type,
               b->encoding.nbits, b->encoding.scale, b->encoding.reference, (int)b->encoding.af_nbits, b->value != NULL);
+      if (b->value && (b->flags & FLAG_CLASS31)) fprintf(bvp_out, "%d", bufr_value_get_int32(b->value));
+      else fputs("-", bvp_out);
       }
    }
 
@@ -183,6 +185,31 @@ static int ss_seti(int argc, char **argv)
    return 0;
    }
 
+static int is_factor(int d) { return d == 31000 || d == 31001 || d == 31002 || d == 31011 || d == 31012; }
+
+/* assign the given values cyclically to the factors that have not been used for an expansion yet */
+static int ss_setfactors(int argc, char **argv)
+   {
+   DataSubset *s; int i, n, k = 0;
+   if (argc < 3) { fputs("bad-op", bvp_out); return 0; }
+   s = get_ss(argv[1]);
+   if (!s) { fputs("none", bvp_out); return 0; }
+   n = bufr_datasubset_count_descriptor(s);
+   for (i = 0; i < n; i++)
+      {
+      BufrDescriptor *b = bufr_datasubset_get_descriptor(s, i);
+      if (is_factor(b->descriptor) && (b->flags & FLAG_CLASS31) && !(b->flags & FLAG_EXPANDED) && !(b->flags & FLAG_SKIPPED) && b->value)
+         {
+         unsigned long v = strtoul(argv[2 + (k % (argc - 2))], NULL, 10);
+         if (b->encoding.nbits < 31) v %= (1UL << b->encoding.nbits);
+         bufr_descriptor_set_ivalue(b, (int)v);
+         k++;
+         }
+      }
+   fprintf(bvp_out, "%d", k);
+   return 0;
+   }
+
 static int ss_expand(int argc, char **argv)
    {
    if (argc != 2 || !cur_dts) { fputs(argc != 2 ? "bad-op" : "-1", bvp_out); return 0; }
@@ -200,6 +227,6 @@ static int ds_invalid(int argc, char **argv)
 struct op_entry ops_template[] = {
    { "T.load", t_load }, { "T.dump", t_dump }, { "T.use", t_use },
    { "tm.new", tm_new }, { "tm.gabarit", tm_gabarit },
-   { "ss.new", ss_new }, { "ss.list", ss_list }, { "ss.seti", ss_seti }, { "ss.expand", ss_expand },
+   { "ss.new", ss_new }, { "ss.list", ss_list }, { "ss.seti", ss_seti }, { "ss.setfactors", ss_setfactors }, { "ss.expand", ss_expand },
    { "ds.invalid", ds_invalid },
    { NULL, NULL } };
